@@ -140,6 +140,8 @@ var misuseTemplates = []struct{ class, src string }{
 	{"arg-type", "max(1, 'a')"}, {"arg-type", "fsum(1, 's')"}, {"arg-type", "addDate(1, 1, 1, 1)"}, {"arg-type", "timeFormat('x', 'y')"},
 	{"arg-type", "year(null)"}, {"arg-type", "year(z)"}, {"arg-type", "timeFormat(null, '2006')"}, {"arg-type", "useTimezone(nilp, 'UTC')"}, {"arg-type", "addDate(null, 1, 1, 1)"}, {"arg-type", "hour(undefinedname)"},
 	{"arg-type", "millSecond(m.missing)"}, {"arg-type", "weekDay(nd)"}, {"arg-type", "month(s0)"}, {"arg-type", "day(arr)"}, {"arg-type", "ftime(null)"}, {"arg-type", "ftime(z)"},
+	{"arg-type", "join(null, ',')"}, {"arg-type", "includes(null, 'a')"}, {"arg-type", "mapToArr(null, 'k')"}, {"arg-type", "fstrs(null)"}, {"arg-type", "join(z, ',')"}, {"arg-type", "fstrs(nilp)"},
+	{"arg-type", "includes(undefinedname, 'a')"}, {"arg-type", "join(m.missing, '-')"}, {"arg-type", "fnums(1, 2, 3, null)"},
 	{"spread-misuse", "abs(arr...)"}, {"spread-misuse", "fsum(1 ...)"}, {"spread-misuse", "fsum(s0...)"}, {"spread-misuse", "fsum(null...)"}, {"spread-misuse", "fcat('a', arr...)"}, {"spread-misuse", "fid(arr...)"},
 	{"invalid-regexp", "regexp('a', '(')"}, {"invalid-regexp", "regexp(s0, '[a')"}, {"invalid-regexp", "regexp('a', '*')"}, {"invalid-regexp", "regexp('a', 'a{2,1}')"}, {"invalid-regexp", "regexp('a', '\\\\')"}, {"invalid-regexp", "regexp('a', ')')"}, {"invalid-regexp", "regexp(s0, 'a)')"}, {"invalid-regexp", "regexp('total)', 'total)')"}, {"invalid-regexp", "regexp('a', '())')"},
 	{"compare-composite", "arr == arr"}, {"compare-composite", "[1] == [1]"}, {"compare-composite", "m == m"}, {"compare-composite", "m != m"}, {"compare-composite", "arr === arr"}, {"compare-composite", "m !== m"},
